@@ -122,3 +122,25 @@ def run_jobs(jobs, fn=solve_one, workers=None):
             else:
                 out[res[0]] = res
     return out
+
+
+def _mixed(job):
+    if job[0] == "feas":
+        return feasible_one(job[1:])
+    return solve_one(job[1:])
+
+
+def run_mixed(feas_jobs, jobs, workers=None):
+    """one pool for feasibility queries and obligations"""
+    workers = workers or min(16, os.cpu_count() or 4)
+    out = {}
+    tagged = [("solve",) + tuple(j) for j in jobs] + [("feas",) + tuple(j) for j in feas_jobs]
+    if not tagged:
+        return out
+    with ProcessPoolExecutor(max_workers=workers) as ex:
+        for res in ex.map(_mixed, tagged, chunksize=1):
+            if isinstance(res, dict):
+                out[res["name"]] = res
+            else:
+                out[res[0]] = res
+    return out
